@@ -264,7 +264,11 @@ class Normalizer:
             return {str(r)}
         k = r[0]
         if k == "arg":
-            return {"arg%d%s" % (r[1], "".join("." + x for x in r[2:]))}
+            fl = list(r[2:])
+            if "[0]" in fl:
+                i = fl.index("[0]")
+                return {"elem(arg%d%s)%s" % (r[1], "".join("." + x for x in fl[:i]), "".join("." + x for x in fl[i + 1:]))}
+            return {"arg%d%s" % (r[1], "".join("." + x for x in fl))}
         if k == "const":
             return {"const %s" % r[1]}
         if k == "local":
@@ -273,6 +277,8 @@ class Normalizer:
             return {"fn:" + str(r[1]).split("::")[-1]}
         if k == "field":
             base = self.alts_root(r[1], stack)
+            if r[2:] and r[2] == "[0]":
+                return {"elem(%s)" % b + "".join("." + x for x in r[3:]) for b in base}
             return {b + "".join("." + x for x in r[2:]) for b in base}
         if k == "aggf":
             name = r[1].split("::")[-2] if "::" in r[1] else r[1]
@@ -307,7 +313,12 @@ class Normalizer:
         def applied(ci, params):
             clo = self._clo(args[ci]) if ci < len(args) else None
             if clo is None:
-                # a function item / non-closure callable: opaque application
+                # a function item used as the callback: `x.map(Grapheme::new)` == `x.map(|s| Grapheme::new(s))`
+                fns = [x for x in (args[ci] if ci < len(args) else ()) if isinstance(x, tuple) and x[0] == "fn"]
+                if len(fns) == 1 and len(args[ci]) == 1:
+                    fnm = str(fns[0][1]).split("::")[-1]
+                    parts = [self.alts(p_, stack) for p_ in params]
+                    return self._prod(parts, lambda c: "%s(%s)" % (fnm, ", ".join(c)))
                 return None
             res = self.closure_apply(clo, params, stack)
             if res is None:
@@ -340,7 +351,7 @@ class Normalizer:
             if nm in ("then", "then_some") and len(args) == 2:
                 a = applied(1, []) if nm == "then" else self.alts(args[1], stack)
                 if a is not None:
-                    return a | {"None"}
+                    return a | {"Option{}"}
             if nm in ("ok_or", "ok_or_else", "ok", "unwrap", "expect", "unwrap_unchecked", "unwrap_or_default") and args:
                 return self.alts(args[0], stack)
             if nm in ("or", "or_else") and len(args) == 2:
@@ -355,7 +366,7 @@ class Normalizer:
                     if res is not None:
                         return self.alts(res[0], res[1])
             if nm == "from_residual":
-                return {"None"}
+                return {"Option{}"}
         # ---- delegation to a crate-local function: what it returns, with the arguments substituted
         if cid is not None and self.inline_local and len(stack) < self.max_inline:
             cb = self.local_body(cid)
@@ -386,7 +397,10 @@ class Normalizer:
 
 PLUMBING_CALLS = {"deref", "deref_mut", "borrow", "borrow_mut", "as_ref", "as_mut", "into_iter", "iter", "iter_mut", "next", "next_back", "branch",
                   "from_residual", "from_output", "as_slice", "as_mut_slice", "as_str", "cast", "cast_mut", "cast_const", "as_ptr", "as_mut_ptr",
-                  "by_ref", "clone", "into", "from", "copied", "cloned", "to_owned"}
+                  "by_ref", "clone", "into", "from", "copied", "cloned", "to_owned",
+                  "then_some", "unwrap_or", "unwrap_or_default", "ok_or", "ok", "is_none", "is_some", "is_ok", "is_err", "as_deref", "take_found_"}
+OPTION_ADAPTORS = {"map": 1, "and_then": 1, "map_or": 2, "map_or_else": 2, "unwrap_or_else": 1, "ok_or_else": 1, "or_else": 1, "then": 1,
+                   "is_some_and": 1, "is_none_or": 1, "filter": 1, "inspect": 1}
 EACH_ADAPTORS = {"for_each": 1, "any": 1, "all": 1, "map": 1, "filter": 1, "find": 1, "position": 1, "try_for_each": 1, "filter_map": 1,
                  "find_map": 1, "inspect": 1, "take_while": 1, "skip_while": 1, "retain": 1}
 
@@ -439,14 +453,34 @@ def _effects(N, body, mapping, stack, in_each):
         if mapping:
             argr = [subst(a, mapping) for a in argr]
         # iterator adaptor with a closure: what the closure does to each element
-        if f is not None and nm in EACH_ADAPTORS and f.get("krate") != "chumsky" and len(argr) > EACH_ADAPTORS[nm]:
-            clo = N._clo(argr[EACH_ADAPTORS[nm]])
+        is_iter = f is not None and "Iterator" in (f.get("trait") or "")
+        adapt = None
+        if f is not None and f.get("krate") != "chumsky":
+            if is_iter and nm in EACH_ADAPTORS:
+                adapt = EACH_ADAPTORS[nm]
+            elif not is_iter and nm in OPTION_ADAPTORS:
+                adapt = OPTION_ADAPTORS[nm]
+        if adapt is not None and len(argr) > adapt:
+            clo = N._clo(argr[adapt])
             cb = facts.by_key.get(clo[1]) if clo is not None else None
+            src = frozenset({("call", "elem", None, (argr[0],), None)}) if is_iter else argr[0]
             if cb is not None and cb["key"] not in stack:
-                elem = frozenset({("call", "elem", None, (argr[0],), None)})
-                m2 = {1: {clo}, 2: elem}
-                out.extend(_effects(N, cb, m2, stack + (cb["key"],), True))
+                m2 = {1: {clo}, 2: src}
+                sub = _effects(N, cb, m2, stack + (cb["key"],), True if is_iter else in_each)
+                if not is_iter:
+                    # the callback of an Option adaptor runs only for Some / None
+                    sub = [(t_, "sometimes" if fl_ == "always" else fl_) for t_, fl_ in sub]
+                out.extend(sub)
                 continue
+            fns = [x for x in argr[adapt] if isinstance(x, tuple) and x[0] == "fn"]
+            if len(fns) == 1 and len(argr[adapt]) == 1:
+                # a function item used as the callback: `xs.all(char::is_whitespace)` == `xs.all(|c| c.is_whitespace())`
+                fnm = str(fns[0][1]).split("::")[-1]
+                for term in sorted(N.alts(src, stack)):
+                    out.append(("%s(%s)" % (fnm, term), "each" if is_iter else flag))
+                continue
+            if not is_iter and cb is None and not fns:
+                continue        # e.g. unwrap_or_else with an opaque callable: plumbing
         # invocation of a closure value built in this body (or handed down by an inlined caller): what the closure does
         if f is not None and nm in ("call", "call_mut", "call_once") and f.get("krate") != "chumsky" and len(argr) == 2:
             clo = N._clo(argr[0])
